@@ -3,8 +3,9 @@
 Level fault_enumeration: worlds and commands are sampled; inside each sampled
 (world, command) *every* boundary between two consecutive external effects of
 the uninterrupted ("golden") run is decided: kill there (real process death),
-run the same command again, check convergence.  The thorough tier adds a torn
-variant (empty and truncated) of every file write.
+run the same command again, check convergence.  The thorough tier adds torn
+variants (empty, and truncated at three points) of every file write; the quick
+tier adds two of them (empty, one truncation) in half of its worlds.
 """
 
 from __future__ import annotations
@@ -26,7 +27,7 @@ RULE = (
     "{db create, db reindex, db reindex <paths>} (or X = the very first db create). The golden run "
     "of X yields effects e_0..e_{n-1}; for EVERY k the world is copied, X is killed (os._exit in "
     "the child) before e_k and X is run again without faults (thorough: additionally torn-empty and "
-    "two torn-prefix variants of every file write). evaluations = crash points decided; "
+    "three torn-prefix variants of every file write; quick: torn-empty and one torn-prefix in half of the worlds). evaluations = crash points decided; "
     "non-trivial = the crashed run had performed >=1 effect and left >=1 undone; distinct = "
     "distinct (command, previous effect, next effect, fault kind) boundary classes x distinct "
     "post-crash world-state digests"
@@ -67,7 +68,8 @@ def gen_case(rng: random.Random, tier: str) -> dict:
         cmd = {"op": "reindex"}
     else:
         cmd = {"op": "reindex", "paths": "all-existing"}
-    torn = tier == "thorough"
+    # thorough: every torn variant of every write; quick: two variants in half of the worlds
+    torn = "full" if tier == "thorough" else ("light" if rng.random() < 0.5 else "")
     return {
         "world": world,
         "prior": prior,
@@ -195,8 +197,9 @@ def execute(case: dict, scratch: str) -> dict:
             plans.append({"kind": "torn-empty", "k": k})
             if effects[k].get("size", 0) > 1:
                 plans.append({"kind": "torn-prefix", "k": k, "j_mode": "frac", "j": case["torn_j"][0]})
-                plans.append({"kind": "torn-prefix", "k": k, "j_mode": "line", "j": case["torn_j"][1]})
-                plans.append({"kind": "torn-prefix", "k": k, "j_mode": "minus1"})
+                if case["torn"] in (True, "full"):
+                    plans.append({"kind": "torn-prefix", "k": k, "j_mode": "line", "j": case["torn_j"][1]})
+                    plans.append({"kind": "torn-prefix", "k": k, "j_mode": "minus1"})
     only = case.get("only")
     first_violation: Optional[dict] = None
     classes = set()
